@@ -210,6 +210,9 @@ fn rand_fx(r: &mut Rng) -> FXRates {
         for _ in 0..(1 + r.below(2)) {
             let q = r.pick(&quotes).clone();
             let (l, rr, _, st) = rateslib::verif::rates_py::quote_view(&q).map(|(p, n, a, s)| (p[..3].to_string(), p[3..].to_string(), (n, a), s)).unwrap();
+            // one re-quote in three names ANOTHER settlement date: with other quotes around it is refused, and a refused
+            // update must leave nothing behind in what is stored (a one-quote market accepts it and moves date)
+            let st = if r.chance(0.33) { match st { Some(d) => if r.coin() { None } else { Some(d + chrono::Duration::days(3)) }, None => Some(dn(20777)) } } else { st };
             let _ = f.update(vec![FXRate::try_new(&l, &rr, Number::F64(rand_pos(r)), st).unwrap()]);
         }
     }
